@@ -35,7 +35,7 @@ def gen(rng, tier):
     elif ending == 'raise':
         sc['exc'] = rng.choice(['ExcA', 'ExcB', 'ExcC', 'KeyError', 'ZeroDivisionError', 'ExcD', 'UnicodeDecodeError', 'TimeoutError', 'Empty', 'EOFError'])
     else:
-        sc['code'] = rng.choice(['none', 0, 1, 3, 'msg'])
+        sc['code'] = rng.choice(['none', 0, 1, 3, 'msg', 'empty_str', 'zero_float', 'empty_tuple', 'false', 255])
     if kind == 'process' and ending != 'exit' and rng.random() < 0.12:
         # the value (or the exception's payload) cannot be sent to the parent: still a way for the target to end
         sc['unpicklable'] = True
@@ -124,7 +124,15 @@ def target(sc):
         sys.exit()
     if code == 'msg':
         sys.exit('fatal message')
+    if code in FALSY_CODES:
+        sys.exit(FALSY_CODES[code])
     sys.exit(code)
+
+
+# exit codes that are falsy but are not None / integer 0: Python (and the library's documented rule) treats every non-integer code as an
+# error exit with status 1; False IS the integer 0, and sys.exit(()) raises SystemExit() whose code is None (CPython normalises a tuple
+# value into the constructor's arguments) - both are clean exits
+FALSY_CODES = {'empty_str': '', 'zero_float': 0.0, 'empty_tuple': (), 'false': False}
 
 
 def run(sim, sc):
@@ -259,7 +267,7 @@ def run(sim, sc):
         want = ('error', sc['exc'])
     else:
         c = sc['code']
-        want = ('value', None) if c in ('none', 0) else ('error', 'SystemExit')
+        want = ('value', None) if c in ('none', 0, 'false', 'empty_tuple') else ('error', 'SystemExit')
     if was_killed:
         sig = kill['sig']
         if sig == 15:
